@@ -1,0 +1,15 @@
+//go:build verif
+
+package evm
+
+func (ctrler *EVMCtrler) VerifStateDB() *StateDBWrapper {
+	return ctrler.stateDBWrapper
+}
+
+func (ctrler *EVMCtrler) VerifLastRootHash() []byte {
+	return ctrler.lastRootHash
+}
+
+func (ctrler *EVMCtrler) VerifLastBlockHeight() int64 {
+	return ctrler.lastBlockHeight
+}
